@@ -14,6 +14,7 @@ import (
 	"time"
 
 	"go.nanomsg.org/mangos/v3/verifsim/simrt"
+	"go.nanomsg.org/mangos/v3/verifsim/snet"
 	"go.nanomsg.org/mangos/v3/verifsim/srand"
 )
 
@@ -290,6 +291,11 @@ func runScenario(w *W, sc *Scenario) {
 			w.cleanup[i]()
 		}
 	}()
+	if w.Real {
+		snet.SetBackend(nil) // engine R: transport/{tcp,ipc,tlstcp} talk to package net
+	} else {
+		w.UseNet(NetCfg{}) // a plain simulated network until the scenario configures its own
+	}
 	sc.Run(w)
 	w.Hygiene()
 }
